@@ -93,6 +93,14 @@ type symSigner struct {
 	Unauth  string // "" / "none" | identity of a content: unauthenticatedAttributes [1] carrying a messageDigest of that content
 }
 
+// encAlgLabel, when set, names the OID written as digestEncryptionAlgorithm of every signer info built (robustness inputs)
+var encAlgLabel string
+var encAlgOIDs = map[string]asn1.ObjectIdentifier{
+	"sha256WithRSA": {1, 2, 840, 113549, 1, 1, 11}, "rsassa-pss": {1, 2, 840, 113549, 1, 1, 10}, "sha1WithRSA": {1, 2, 840, 113549, 1, 1, 5},
+	"ecdsa-sha256": {1, 2, 840, 10045, 4, 3, 2}, "ecdsa-sha384": {1, 2, 840, 10045, 4, 3, 3}, "ecPublicKey": {1, 2, 840, 10045, 2, 1},
+	"ed25519": {1, 3, 101, 112}, "dsa-sha256": {2, 16, 840, 1, 101, 3, 4, 3, 2}, "sm2-sm3": {1, 2, 156, 10197, 1, 501}, "sha256": {2, 16, 840, 1, 101, 3, 4, 2, 1},
+}
+
 var sidCerts = map[string][3]string{"A": {"k1", "i1", "s1"}, "B": {"k2", "i2", "s2"}, "At": {"k2", "i1", "s1"}, "C": {"k3", "i2", "s1"},
 	"Ca": {"k3", "ca", "7f"}, "CaSub": {"k3", "ca", "7f"}} // Ca: issued by a separate CA (issuer != subject); signer id CaSub names its subject
 
@@ -231,7 +239,11 @@ func buildSymBlob(ct, content string, signers []symSigner, certs string, wrap bo
 		if hasAttrs {
 			parts = append(parts, derTLV(0xa0, attrs))
 		}
-		parts = append(parts, derAlg(oidRSA), derTLV(0x04, sig))
+		enc := oidRSA
+		if o, ok := encAlgOIDs[encAlgLabel]; ok {
+			enc = o // the digestEncryptionAlgorithm field is a label outside the signed bytes: anybody can rewrite it
+		}
+		parts = append(parts, derAlg(enc), derTLV(0x04, sig))
 		if strings.HasPrefix(s.Unauth, "nested_") {
 			// unauthenticatedAttributes [1] with Microsoft's nested-signature attribute: a complete, genuine SignedData made by the
 			// named signer's own key over the content named after the underscore
